@@ -18,6 +18,7 @@ type Binding struct {
 	ElemNilable bool // for lists: element type can be nil
 	Directive   bool // field carries @guard
 	Stamp       bool // field carries @stamp after (= outside of) @guard
+	TypeStamp   bool // the field's named type carries @stamp: gqlgen runs it once more, for every field returning the type
 }
 
 // Env is what the reference executor needs.
@@ -307,14 +308,18 @@ func (e *exec) field(objType, objID string, fd *ast.FieldDefinition, f *ast.Fiel
 	v := e.fieldInner(objType, objID, fd, f, sel, path)
 	// the last directive listed is the outermost: @stamp sees whatever @guard and the resolver
 	// produced and marks a non-null scalar
-	if e.env.Binding(objType, fd.Name).Stamp && v != nil {
+	b := e.env.Binding(objType, fd.Name)
+	for _, on := range []bool{b.TypeStamp, b.Stamp} {
+		if !on || v == nil {
+			continue
+		}
 		switch v.K {
 		case parsers.Num:
 			var n int64
 			fmt.Sscan(v.N, &n)
-			return parsers.NewNum(n + StampInt)
+			v = parsers.NewNum(n + StampInt)
 		case parsers.Str:
-			return parsers.NewStr(v.S + StampStr)
+			v = parsers.NewStr(v.S + StampStr)
 		}
 	}
 	return v
